@@ -455,6 +455,12 @@ def m_check_at_end(ex, st, recv, args, kw):
             yield from raise_new(ex, s2, "CheckError", [m, args[0]])
 
 
+def m_reset_checks_at_close(ex, st, recv, args, kw):
+    """contract of _reset_checks (verified unit) used by close(): a run that never began is reset before any end-of-data verdict is asked (F-14, now for every validator)"""
+    ex.obligations.append(Obligation("protocol/a-run-that-never-began-is-reset-before-the-first-end-of-data-verdict", st.pc, z3.And(G(st, "ends_done") == 0, z3.Not(G(st, "started0")), z3.Not(G(st, "closed0"))), "protocol", props=["C08", "C05", "C20"]))
+    st.ghost["reset_calls"] = st.ghost["reset_calls"] + 1; st.heap[recv.oid]["_has_reset_checks"] = True; yield st, None
+
+
 def m_cleanup(ex, st, recv, args, kw):
     cidx = ex.absfun_s("check_index_of", [sort_of(CHECK)], z3.IntSort())(recv.z)
     ex.obligations.append(Obligation("protocol/cleanup-each-check-once-in-order", st.pc, G(st, "cleanups_done") == cidx, "protocol", props=["C20"]))
@@ -469,10 +475,10 @@ def setup_close(ex, st):
     st.pc.append(z3.ForAll([i], z3.Implies(z3.And(i >= 0, i < m.z), z3.And(check_of(names.at(i)) == checks.at(i), cio(checks.at(i)) == i))))
     loc = Ref("Location"); st.heap[loc.oid] = {"file_path": "<io>", "_line": fresh(INT, "line")[0], "_column": 0, "_cell": 0, "_sheet": 0, "_has_column": False, "_has_cell": True, "_has_sheet": False}
     cid = Ref("Cid"); st.heap[cid.oid] = {"_check_names": names, "_check_name_to_check_map": UFMap(STR, CHECK, check_of, values=checks)}
-    closed0 = fresh(BOOL, "closed0")[0]
-    self = Ref("Reader"); st.heap[self.oid] = {"_cid": cid, "_location": loc, "_is_closed": closed0}
+    closed0 = fresh(BOOL, "closed0")[0]; started0 = fresh(BOOL, "run_started0")[0]
+    self = Ref("Reader"); st.heap[self.oid] = {"_cid": cid, "_location": loc, "_is_closed": closed0, "_has_reset_checks": started0}
     st.frames[-1].env["self"] = self
-    st.ghost.update({"m": m, "ends_done": 0, "cleanups_done": 0, "closed0": closed0, "this": self, "checksv": checks})
+    st.ghost.update({"m": m, "ends_done": 0, "cleanups_done": 0, "closed0": closed0, "started0": started0, "reset_calls": 0, "this": self, "checksv": checks})
 
 
 def sf_end_ok(ex, st, j):
@@ -483,13 +489,16 @@ def close_contract():
     return Contract("validio.BaseValidator.close", setup_close,
         returns=[Clause("implies(closed0, ends_done == 0 and cleanups_done == 0)", "second-close-does-nothing", props=["C20"]),
                  Clause("implies(not closed0, ends_done == m and cleanups_done == m and forall(j, 0 <= j and j < m, end_ok(j)))", "every-verdict-asked-once-in-order-then-every-check-cleaned-up", props=["C20", "C05"]),
-                 Clause("this._is_closed == True", "marked-closed", props=["C20"])],
-        raises={"CheckError": [Clause("not closed0 and ends_done >= 1 and not end_ok(ends_done - 1) and forall(j, 0 <= j and j < ends_done - 1, end_ok(j))", "raised-by-the-first-failing-end-verdict", props=["C20", "C05"]),
+                 Clause("this._is_closed == True", "marked-closed", props=["C20"]),
+                 Clause(lambda ex, st: Sym(BOOL, z3.If(z3.And(z3.Not(G(st, "closed0")), z3.Not(G(st, "started0"))), z3.IntVal(1), z3.IntVal(0)) == st.ghost["reset_calls"]),
+                        "the-end-of-data-verdicts-are-about-this-run:-an-open-validator-whose-run-never-began-resets-the-checks-first-(once)-any-other-does-not", props=["C08", "C05", "C20"])],
+        raises={"CheckError": [
+                               Clause(lambda ex, st: Sym(BOOL, z3.If(z3.And(z3.Not(G(st, "closed0")), z3.Not(G(st, "started0"))), z3.IntVal(1), z3.IntVal(0)) == st.ghost["reset_calls"]), "reset-first-also-when-a-verdict-then-fails", props=["C08", "C05"]),Clause("not closed0 and ends_done >= 1 and not end_ok(ends_done - 1) and forall(j, 0 <= j and j < ends_done - 1, end_ok(j))", "raised-by-the-first-failing-end-verdict", props=["C20", "C05"]),
                                Clause("cleanups_done == m", "cleanup-runs-for-every-check-even-if-a-verdict-raised", props=["C20"]),
                                Clause("this._is_closed == True", "closed-also-when-a-verdict-raised:-a-second-close()-asks-no-check-again", props=["C20"])]},
         loops={0: LoopSpec(invariants=["ends_done == _i0", "cleanups_done == 0", "forall(j, 0 <= j and j < _i0, end_ok(j))"], havoc={"check_name": STR}, ghost_havoc={"ends_done": INT}),
                1: LoopSpec(invariants=["cleanups_done == _i1"], havoc={"check": CHECK}, ghost_havoc={"cleanups_done": INT})},
-        expect=["return", "CheckError"], n_loops=2, modifies=["Reader._is_closed"])
+        expect=["return", "CheckError"], n_loops=2, modifies=["Reader._is_closed", "Reader._has_reset_checks"])
 
 
 class CloseOracle(Oracle):
@@ -504,6 +513,7 @@ class CloseOracle(Oracle):
         log = []
         checks = [_StubCheck("c%d" % i, set(), log, fail_at_end=f) for i, f in enumerate(fails)]
         v = validio.BaseValidator(_StubCid([_StubField("f0", {"a"}, log)], checks)); v._location = errors.Location("<io>", has_cell=True)
+        v._has_reset_checks = True       # a run under way (the case of a run that never began: C08.history 'nothing_fed', 'validate_0', 'reader_unused')
         try: v.close(); out = "return"
         except errors.CheckError: out = "CheckError"
         except Exception as e: return {"expected": "return or CheckError", "observed": repr(e)}
@@ -520,7 +530,7 @@ class CloseOracle(Oracle):
 
 def unit_close():
     def make(ctx):
-        return {"contract": close_contract(), "callees": {"abs:Check.check_at_end": AbsContract(m_check_at_end), "abs:Check.cleanup": AbsContract(m_cleanup)}, "spec_functions": {"end_ok": sf_end_ok},
+        return {"contract": close_contract(), "callees": {"abs:Check.check_at_end": AbsContract(m_check_at_end), "abs:Check.cleanup": AbsContract(m_cleanup), "ref:Reader._reset_checks": m_reset_checks_at_close}, "spec_functions": {"end_ok": sf_end_ok},
                 "assumptions": ["checks are abstract plug-ins: check_at_end raises only CheckError (verdict end_ok), cleanup does not raise; check_map.values() lists the checks in declaration order (dict insertion order, Python >= 3.7)"]}
     return ProofUnit("validio.BaseValidator.close", "close(): end verdicts once in declaration order, cleanup for every check (finally), idempotent after success", ["C20", "C05", "C08"], make, CloseOracle())
 
@@ -1300,7 +1310,7 @@ def unit_c04_sweep():
 
 
 # ---------------------------------------------------------------- Reader.close (F-14): a reader whose rows() was never started resets the checks itself
-def unit_reader_close():
+def _retired_unit_reader_close():   # Reader.close no longer exists: its guard moved into BaseValidator.close (contract: validio.BaseValidator.close)
     def setup(ex, st):
         m = fresh(INT, "m")[0]; st.pc.append(m.z >= 0)
         checks, c2 = fresh(UFList(CHECK), "checks"); st.pc.extend(c2); st.pc.append(checks.length == m.z)
